@@ -57,6 +57,9 @@ C16_MIXED_Q = [("unsigned char", "signed char"), ("signed char", "unsigned char"
                ("long", "int"), ("unsigned char", "int"), ("int", "double"), ("double", "int"), ("long", "short"),
                ("int", "unsigned char"), ("unsigned long", "signed char")]
 C16_BIN = ["op_add", "op_sub", "op_mul", "op_div", "op_mod", "op_xor", "op_and", "op_or", "op_shl", "op_shr"]
+# rejected by design: ! on numbers; post ++/-- of a tainted_volatile would have to return a copy of sandbox memory by value;
+# tv & tv is refused (binary & with a tainted_volatile right operand collides with the address-of overload)
+C16_CORE_NOT_PROGRAMS = {("incdec", "u_postinc", "WV"), ("incdec", "u_postdec", "WV"), ("binop", "op_and", "WV", "WV")}
 C16_CMP = ["op_eq", "op_ne", "op_lt", "op_le", "op_gt", "op_ge", "op_land", "op_lor"]
 
 
@@ -97,9 +100,30 @@ def c16(c):
     ntu = c.ncpu if not c.thorough else c.ncpu * 4
     pre = '#include "c16_ops.hpp"\nusing namespace c16;\nint main(int c, char** v) { return c16::run_all(c, v); }\n'
     units, runs = [], []
+    # core forms -- both operands int or both long, every operator and wrapper combination -- have always been programs:
+    # if one stops compiling the run is inconclusive instead of quietly judging less (C16_CORE_NOT_PROGRAMS: rejected by design)
+    def is_core(f):
+        t = f[1].rstrip(")").split(", ")
+        if t[1] in ("binop", "compound"):
+            return (t[5], t[6]) in (("int", "int"), ("long", "long")) and (t[1], t[2], t[3], t[4]) not in C16_CORE_NOT_PROGRAMS
+        return t[4] in ("int", "long") and t[2] != "u_lnot" and (t[1], t[2], t[3]) not in C16_CORE_NOT_PROGRAMS
+    core = [f for f in forms if is_core(f)]
+    forms = [f for f in forms if not is_core(f)]
+    for i in range(2):
+        name = "c16_core%d" % i
+        units.append(dict(name=name, kind="forms", must_compile=True, build="asan", defs=EXC, preamble=pre, forms=core[i::2]))
+        runs.append(dict(unit=name, label=name))
     for i in range(ntu):
         name = "c16_run%02d" % i
         units.append(dict(name=name, kind="forms", build="asan", defs=EXC, preamble=pre, forms=forms[i::ntu]))
+        runs.append(dict(unit=name, label=name))
+    # the forms that touch sandbox memory, once more under an ABI whose short/int/long are all wider than the application's
+    # (cells can then hold values the application type cannot: the update must still be the plain operator's)
+    wforms = [f for f in forms if "WV" in f[1] and (c.thorough or "compound" in f[1] or "incdec" in f[1])]
+    nw = max(4, ntu // 2)
+    for i in range(nw):
+        name = "c16_wide%02d" % i
+        units.append(dict(name=name, kind="forms", build="asan", defs=EXC + ["C16_CFG=vsbx_wide"], preamble=pre, forms=wforms[i::nw]))
         runs.append(dict(unit=name, label=name))
     return dict(units=units, runs=runs, evidence=dict(
         level="exploration",
@@ -109,7 +133,9 @@ def c16(c):
              "8-bit x 8-bit operand types, boundary+random value sets otherwise) and compares result type (as a run-time "
              "boolean), result value and operand post-state with the plain expression, evaluated only where it has defined "
              "behaviour (validity decided in 128-bit arithmetic; the UBSan build also proves the reference never evaluates UB). "
-             "distinct_nontrivial = number of driven forms that judged at least one operand pair.",
+             "distinct_nontrivial = number of driven forms that judged at least one operand pair. The forms that store into sandbox memory "
+             "(thorough: every form with a sandbox-resident operand) are driven again on the WIDE model backend (cells wider than the application "
+             "type); int/int and long/long forms are must-compile units.",
         exhaustive=False,
         exhaustive_subspaces=["all 65536 operand pairs of every drivable form whose operand types are both 8-bit"],
         assumptions=["gcc's accept/reject decides only which forms exist as programs; it is never the oracle",
@@ -194,6 +220,11 @@ def c17(c):
         units.append(dict(name=nm, srcs=[D + "c17_arrayidx.cpp"], build="asan0", defs=EXC + ["CFG=vsbx_ilp32"],
                           flags=["-I" + os.path.join(c.bdir, "inc%d" % k)]))
         runs.append(dict(unit=nm, label=nm))
+    # optimised builds without a sanitizer: whole-array copies followed by element access (see the driver)
+    for b in ("plain", "plain3", "clang-plain"):
+        nm = "c17_opt_" + b.replace("-", "_")
+        units.append(dict(name=nm, srcs=[D + "c17_optcopy.cpp"], build=b, defs=EXC))
+        runs.append(dict(unit=nm, label=nm))
     return dict(units=units, runs=runs, pre=[gen], evidence=dict(
         level="exploration",
         rule="case = (array location in {struct field in sandbox memory, malloc'ed array in sandbox memory, struct field in application memory, "
@@ -201,7 +232,9 @@ def c17(c):
              "address is start+i*element size of the memory the array lives in (guest size in sandbox memory, host size in application memory), "
              "otherwise abort; a write through every valid index of a sandbox-resident array must change exactly that element of the guest image. "
              "8- and 16-bit index types are enumerated completely; wider ones get -1, N, N+-1, type limits and 2^k+i aliases of every valid i. "
-             "Distinct = (location, holder, index type, wrapper) combinations swept.",
+             "Distinct = (location, holder, index type, wrapper) combinations swept. Plus c17_optcopy in g++ -O2, g++ -O3 and clang -O2 builds without "
+             "sanitizer: snapshot/copy/opaque round trip of sandbox arrays of six element types, then every element read (written) through operator[] "
+             "must be the array's element.",
         exhaustive=False,
         exhaustive_subspaces=["all values of every 8- and 16-bit index type for every holder and location"],
         assumptions=["ILP32 model backend; guest layout from independently declared fixed-width structs"]))
@@ -239,6 +272,10 @@ def c20(c):
         units.append(dict(name=nm + "_p1", srcs=[D + "c20_opaque_casts.cpp"], build="asan0", defs=EXC + ["CFG=vsbx_" + n, "PART=1"]))
         runs.append(dict(unit=nm + "_p0", label=nm + "_opaque_ptr"))
         runs += sliced(nm + "_p1", 6, label=nm + "_static")
+    for b in ("plain", "plain3", "clang-plain"):
+        nm = "c20_opt_" + b.replace("-", "_")
+        units.append(dict(name=nm, srcs=[D + "c17_optcopy.cpp"], build=b, defs=EXC + ['PROP_ID="C20"']))
+        runs.append(dict(unit=nm, label=nm))
     return dict(units=units, runs=runs, evidence=dict(
         level="exploration",
         rule="case = (a) tainted value -> to_opaque -> from_opaque compared by object representation, for every primitive (all patterns of <=16-bit "
@@ -246,7 +283,8 @@ def c20(c):
              "passed as tainted and as tainted_opaque to a guest function and through a callback with opaque parameter/result: the guest event log "
              "must show identical values; (c) sandbox_static_cast for all 15x15 arithmetic/enum pairs from tainted and from sandbox-resident "
              "tainted_volatile sources against the C++ cast (only where the C++ cast is defined); (d) sandbox_reinterpret/const/static_cast on "
-             "pointers: designated address unchanged, null preserved, source cell unchanged. Distinct = (kind, type or type pair, source wrapper).",
+             "pointers: designated address unchanged, null preserved, source cell unchanged; (e) optimised uninstrumented builds (g++ -O2, g++ -O3, "
+             "clang -O2): arrays through to_opaque/from_opaque in an application struct, then indexed. Distinct = (kind, type or type pair, source wrapper).",
         exhaustive=False,
         exhaustive_subspaces=["all bit patterns of 8- and 16-bit types for the opaque round trip and as static_cast sources (sub-sampled above 3000 values per pair)"],
         assumptions=["model backend ILP32 (quick) plus NARROW and WIDE (thorough)"]))
@@ -348,6 +386,10 @@ def c10(c):
     units = [dict(name="c10_ilp32", srcs=[D + "c10_bulk.cpp"], build="asan0",
                   defs=EXC + ["CFG=vsbx_ilp32", "RLBOX_USE_STATIC_CALLS()=rlbox_noop_sandbox_lookup_symbol"])]
     runs = [dict(unit="c10_ilp32", label="c10_ilp32[p%d]" % p, args=[p]) for p in range(6)]
+    # the same driver on a backend whose membership hook compares size-aligned blocks (application buffers may cross a block line)
+    units.append(dict(name="c10_ilp32m", srcs=[D + "c10_bulk.cpp"], build="asan0",
+                      defs=EXC + ["CFG=vsbx_ilp32m", "RLBOX_USE_STATIC_CALLS()=rlbox_noop_sandbox_lookup_symbol"]))
+    runs += [dict(unit="c10_ilp32m", label="c10_ilp32m[p%d]" % p, args=[p], count_distinct=False) for p in range(6)]
     # bounded model backend that offers the optional grant/deny hooks (can_grant_deny_access), accepting or declining by policy
     units.append(dict(name="c10_grantcap", srcs=[D + "c10_grantcap.cpp"], build="asan0", defs=EXC))
     runs.append(dict(unit="c10_grantcap", label="c10_grantcap[ilp32g]"))
@@ -355,6 +397,22 @@ def c10(c):
     for cfg in ("wide", "narrow"):
         units.append(dict(name="c10_elemabi_" + cfg, srcs=[D + "c10_elemabi.cpp"], build="asan0", defs=EXC + ["CFG=vsbx_" + cfg]))
         runs.append(dict(unit="c10_elemabi_" + cfg, label="c10_elemabi[%s]" % cfg))
+    # a handful of compile-filtered programs on the WIDE ABI (pointer representation of host width): requests the statement
+    # rules out at the type level must not exist as programs that run to completion
+    pre = '#include "miniforms.hpp"\nusing namespace rlbox;\nint main(int c, char** v) { return mf::run_all(c, v); }\n'
+    FAW = 'auto fa = e.sb.INTERNAL_get_sandbox_function_name<int(int)>("guest_fn");'
+    c10forms = [
+        (1, 'FORM(1, "f", "copy_and_verify_range on the address of a sandbox function") { ' + FAW + ' fa.copy_and_verify_range([](std::unique_ptr<int[]>) { return 0; }, 4); }'),
+        (2, 'FORM(2, "f", "copy_and_verify_buffer_address on the address of a sandbox function") { ' + FAW + ' fa.copy_and_verify_buffer_address([](uintptr_t) { return 0; }, 16); }'),
+        (3, 'FORM(3, "f", "unverified_safe_pointer_because on the address of a sandbox function") { ' + FAW + ' auto p = fa.unverified_safe_pointer_because(4, "x"); (void)p; }'),
+        (4, 'FORM(4, "r", "copy_memory_or_grant_access with an array of raw char*") { char* arr[2] = { reinterpret_cast<char*>(e.raw()), reinterpret_cast<char*>(e.raw()) }; bool c = false; auto t = copy_memory_or_grant_access(e.sb, arr, 2, false, c); (void)t; }'),
+        (5, 'FORM(5, "r", "copy_memory_or_grant_access with an array of raw double*") { double* arr[2] = { reinterpret_cast<double*>(e.raw()), reinterpret_cast<double*>(e.raw()) }; bool c = false; auto t = copy_memory_or_grant_access(e.sb, arr, 2, false, c); (void)t; }'),
+        (6, 'FORM(6, "g", "copy_memory_or_grant_access with a char buffer (control)") { char buf[8] = "control"; bool c = false; auto t = copy_memory_or_grant_access(e.sb, buf, 8, false, c); (void)t; }'),
+        (7, 'FORM(7, "g", "copy_and_verify_range on a data pointer (control)") { auto p = mf::Wd::tptr<int>(e.sb, 4096); p.copy_and_verify_range([](std::unique_ptr<int[]>) { return 0; }, 4); }'),
+    ]
+    c10forms = c10forms[3:] + c10forms[:3]  # the forms that may end in a fatal sanitizer report run last
+    units.append(dict(name="c10_forms_wide", kind="forms", build="asan0", defs=EXC + ['MF_PROP="C10"', "MF_CFG=vsbx_wide"], preamble=pre, forms=c10forms))
+    runs.append(dict(unit="c10_forms_wide", label="c10_forms[wide]"))
     if c.thorough:
         units.append(dict(name="c10_ilp32f", srcs=[D + "c10_bulk.cpp"], build="asan0",
                           defs=EXC + ["CFG=vsbx_ilp32f", "RLBOX_USE_STATIC_CALLS()=rlbox_noop_sandbox_lookup_symbol"]))
@@ -588,6 +646,12 @@ def c09(c):
     units = [dict(name="c09_toctou", srcs=[D + "c09_toctou.cpp"], build="asan", defs=EXC)]
     runs = sliced("c09_toctou", 6, label="c09_interleave", args=[0])
     runs.append(dict(unit="c09_toctou", label="c09_racing_thread", args=[1]))
+    # the same interleaver on an ABI wider than the host (loads narrow the guest value with a range check): -O0 and -O1 builds,
+    # because how often the source is read is up to the compiler unless the library reads it once itself
+    units.append(dict(name="c09_wideconv0", srcs=[D + "c09_wideconv.cpp"], build="asan0", defs=EXC))
+    units.append(dict(name="c09_wideconv1", srcs=[D + "c09_wideconv.cpp"], build="asan", defs=EXC))
+    runs.append(dict(unit="c09_wideconv0", label="c09_wideconv[O0]"))
+    runs.append(dict(unit="c09_wideconv1", label="c09_wideconv[O1]"))
     return dict(units=units, runs=runs, evidence=dict(
         level="exploration",
         rule="case = (copy_and_verify variant, source content, interleave point k, adversary action). The sandbox region is access-trapped (mprotect + "
@@ -604,7 +668,7 @@ def c09(c):
              "between two lengths during 20 000 (quick) / 1 000 000 (thorough) calls. An abort is always an acceptable outcome.",
         exhaustive=False,
         exhaustive_subspaces=["every interleave point (each individual access to sandbox memory) of every variant x content, for each single adversary action"],
-        assumptions=["single adversary actions are enumerated over every access; sequences of two actions at two accesses are sampled (24 / 400 per variant), longer sequences not driven", "ILP32 model backend; x86-64 trap flag single-stepping"]))
+        assumptions=["single adversary actions are enumerated over every access; sequences of two actions at two accesses are sampled (24 / 400 per variant), longer sequences not driven", "ILP32 model backend (plus the WIDE model for narrowing loads); x86-64 trap flag single-stepping"]))
 
 
 # --------------------------------------------------------------------- C18
@@ -708,7 +772,8 @@ def c01(c):
 @plan("C02")
 def c02(c):
     units, runs, n = forms_plan(c, "C02")
-    return dict(units=units, runs=runs, evidence=dict(
+    # the function-pointer instantiation of the entry-point sweep lives in a generated form: a run in which it was not driven is inconclusive
+    return dict(units=units, runs=runs, require=["entry-point-sweep-with-function-pointers"], evidence=dict(
         level="exploration",
         rule="(a) form corpus: raw int*/const int*/void*/char* and raw function pointers into tainted / tainted_volatile / struct fields / pointer "
              "arrays (C array, std::array) by construction, assignment, store, invoke argument; compound forms such as tainted<int> + raw pointer; "
